@@ -25,6 +25,8 @@ Definition bep44_err_text (c : Z) : bytes :=
 Section Run.
   Variable edv : bytes -> bytes -> bytes -> bool.
   Variable exp : Z.
+  (* harness option: the underlying store's Put fails (a non-KRPC error) for items with seq mod 7 = 3 *)
+  Variable store_fail : bool.
 
   Definition store := Bep44.store.
 
@@ -39,7 +41,10 @@ Section Run.
     match it_bv it with
     | None => (st, PutOtherErr)
     | Some bv =>
-        let '(r, st') := Bep44.wrapper_put sha1 edv Bep44.Repaired now (to_b44 it bv) st in
+        let '(r, st1) := Bep44.wrapper_put sha1 edv Bep44.Repaired now (to_b44 it bv) st in
+        let failing := store_fail && Z.eqb (it_seq it mod 7) 3 in
+        let r := match r with Bep44.POk => if failing then Bep44.POther else r | _ => r end in
+        let st' := if failing then st else st1 in
         (st', match r with
               | Bep44.POk => PutOk
               | Bep44.PErr c => PutKrpcErr (mkErr c (bep44_err_text c))
